@@ -494,7 +494,8 @@ def function_jobs(run, sites, rng, quick):
         if not quick:
             both = tagset(s) + EXTRA_TAGS
             jobs.extend(("fn", s, (a, b)) for a in both for b in both
-                        if a in EXTRA_SRC or b in EXTRA_SRC)
+                        if (a in EXTRA_SRC or b in EXTRA_SRC) and not (a == "x_sbig" and b == "x_sbig"))
+            # (two 5000-character strings make join / replace / split build 25 MB results: work, not a hang)
     three = []
     for s in reps:
         if quick and param_count(sites[s][1]) < 3:
